@@ -117,7 +117,8 @@ def storeOKStats (s0 : Store) (evs : List StoreEv) : String :=
   let imgs := (List.range (evs.length + 1)).map fun k => (evs.take k).foldl Store.apply s0
   let withIdx := imgs.filter fun st => st.index.isSome
   let ok := withIdx.filter storeOKb
-  s!"# storeok images={imgs.length} indexed={withIdx.length} ok={ok.length}"
+  let uq := withIdx.filter storeUniqB
+  s!"# storeok images={imgs.length} indexed={withIdx.length} ok={ok.length} uniq={uq.length}"
 
 /-- a Remove of a missing key is not an event (the harness only sees effective removals). -/
 def effectiveEvents (s0 : Store) (evs : List StoreEv) : List StoreEv :=
